@@ -82,11 +82,31 @@ func (s *State) DumpState() {
 	s.cache.DumpState()
 }
 
+// isTombstone reports whether a cached value marks a key deleted in the open block
+func isTombstone(value []byte) bool {
+	return bytes.Equal(value, []byte(TOMBSTONE))
+}
+
+// deletedInCache reports whether the block cache holds a delete marker for the key;
+// it looks below the gas store so that no additional gas is charged
+func (s *State) deletedInCache(key StoreKey) bool {
+	cache := s.cache
+	if gs, ok := cache.(*GasStore); ok {
+		cache = gs.SessionedDirectStorage
+	}
+	value, err := cache.Get(key)
+	return err == nil && isTombstone(value)
+}
+
 func (s *State) Get(key StoreKey) ([]byte, error) {
 	if s.txSession != nil {
 		// Get the txSession first
 		result, err := s.txSession.Get(key)
 		if err == nil {
+			if isTombstone(result) {
+				// deleted in this session, reads as absent
+				return nil, nil
+			}
 			// if got result, return directly
 			return result, err
 		}
@@ -95,6 +115,10 @@ func (s *State) Get(key StoreKey) ([]byte, error) {
 	// Get the cache first
 	result, err := s.cache.Get(key)
 	if err == nil {
+		if isTombstone(result) {
+			// deleted in this block, reads as absent
+			return nil, nil
+		}
 		// if got result, return directly
 		return result, err
 	}
@@ -115,10 +139,10 @@ func (s *State) Set(key StoreKey, value []byte) error {
 func (s *State) Exists(key StoreKey) bool {
 
 	if s.txSession != nil {
-		// check existence in txSession
-		exist := s.txSession.Exists(key)
-		if exist {
-			return exist
+		// check existence in txSession, a delete marker means the key is gone
+		result, err := s.txSession.Get(key)
+		if err == nil {
+			return !isTombstone(result)
 		}
 	}
 
@@ -129,7 +153,7 @@ func (s *State) Exists(key StoreKey) bool {
 		return s.cs.Exists(key)
 	}
 
-	return exist
+	return !s.deletedInCache(key)
 }
 
 func (s *State) Delete(key StoreKey) (bool, error) {
@@ -157,7 +181,8 @@ func (s *State) Iterate(fn func(key []byte, value []byte) bool) (stopped bool) {
 
 	for _, key := range keys {
 		value, err := s.Get(key)
-		if err != nil {
+		if err != nil || value == nil {
+			// skip keys that failed to load or were deleted in the open block
 			continue
 		}
 		stop := fn(key, value)
@@ -177,7 +202,8 @@ func (s *State) IterateRange(start, end []byte, ascending bool, fn func(key, val
 	//todo: we can't get the key for anything that's only in the cache,
 	for _, key := range keys {
 		value, err := s.Get(key)
-		if err != nil {
+		if err != nil || value == nil {
+			// skip keys that failed to load or were deleted in the open block
 			continue
 		}
 		stop := fn(key, value)
